@@ -632,6 +632,36 @@ pub fn run(thorough: bool) -> Report {
     }
     let session_programs = session_pass(&full, 2, &total) + session_pass(&fnm, 3, &total);
     let array_sweep_programs = array_sweep(&total);
+    // programs at the loop cap: 31 / 32 / 33 distinct loops open, then one of them entered again
+    // (the loop of that name and everything inside it is forgotten first, so there is room)
+    let mut boundary_programs = 0u64;
+    for (loops, reenter) in [(32u64, 1u64), (32, 32), (32, 16), (33, 1), (31, 1), (31, 31)] {
+        let mut prog = ProgramAst::new();
+        for i in 1..=loops {
+            prog.insert(10 * i, vec![Stmt::For(format!("V{}", i), num(1.0), num(1.0), None)]);
+        }
+        let after = 10 * (loops + 1);
+        prog.insert(
+            after,
+            vec![
+                Stmt::Let(false, lv("X"), bin(Bin::Add, var("X"), num(1.0))),
+                Stmt::If(bin(Bin::Lt, var("X"), num(3.0)), Branch::Line(10 * reenter), None),
+            ],
+        );
+        prog.insert(after + 10, vec![Stmt::Print(vec![PItem::E(st("DONE")), PItem::Semi, PItem::E(var("X"))])]);
+        boundary_programs += 1;
+        let (mut cap, mut undef) = (false, false);
+        if let Some((sig, detail)) = compare(&prog, &mut cap, &mut undef) {
+            let lines = render_program(&prog);
+            let mut t = total.lock().unwrap();
+            t.violating += 1;
+            t.viol.push(Violation {
+                signature: format!("{} open loops, loop {} entered again :: {}", loops, reenter, sig),
+                detail,
+                case: case_program(&lines, &[], 1),
+            });
+        }
+    }
     let acc = total.into_inner().unwrap();
     if acc.templates_run.len() < full.len() + 8 {
         machinery("vacuous: not every statement template was executed");
@@ -659,6 +689,7 @@ pub fn run(thorough: bool) -> Report {
         "distinct_reference_outputs": acc.outputs.len(),
         "session_pass_statement_sequences_run_in_long_lived_interpreters": session_programs,
         "array_sweep_programs": array_sweep_programs,
+        "loop_cap_boundary_programs": boundary_programs,
         "reference_outcomes": acc.ends,
         "compared_on_prefix_because_of_turn_cap": acc.capped,
         "reference_undefined_not_compared": acc.undefined,
